@@ -406,6 +406,20 @@ def detection_exact(ctx, rep, rule):
     n = 0
     tj = r.task_job_attr
 
+    def says(alt, terms, val):
+        """the path facts `alt` say that one of `terms` is set (val=True) / unset (val=False): by its truth
+        value, or by a comparison with None"""
+        for a, b in alt:
+            if a in terms and b == val:
+                return True
+            if a[0] == 'cmp' and a[1] in ('is not', '!=', 'is', '==') and T.NONE in (a[2], a[3]):
+                x = a[3] if a[2] == T.NONE else a[2]
+                if x in terms:
+                    isset = b if a[1] in ('is not', '!=') else (not b)
+                    if isset == val:
+                        return True
+        return False
+
     def atoms(key):
         elem = T.mk(('elem', key[1], key[2]))
         job = T.mk(('attr', elem, tj))
@@ -422,7 +436,7 @@ def detection_exact(ctx, rep, rule):
         raised = [mcall(job, 'raised_exception'), T.mk(('attr', elem, '_exception')),
                   mcall(elem, 'exception')]
         crit = [mcall(job, 'is_critical'), T.mk(('attr', job, 'critical'))]
-        ok = bool(key[3]) and all(any((a, True) in alt for a in raised) and any((a, True) in alt for a in crit)
+        ok = bool(key[3]) and all(says(alt, raised, True) and any((a, True) in alt for a in crit)
                                   for alt in key[3])
         rep.check(ok and is_wdone(key[1]), rule, "%s abort condition" % e.where, fn,
                   "abort flag set when: %s" % [[(T.show(a, 3), b) for a, b in alt] for alt in key[3]],
@@ -440,9 +454,10 @@ def detection_exact(ctx, rep, rule):
         for k, v in e.st.facts.items():
             if v and k[0] == 'forall' and k[1] == wd:
                 elem, job = atoms(k)
-                if any(a[0] in ('mcall', 'attr') and T.contains(a, elem) and
-                       (a == mcall(job, 'raised_exception') or a == mcall(job, 'is_critical')
-                        or a == T.mk(('attr', job, 'critical')) or a == T.mk(('attr', elem, '_exception')))
+                interesting = (mcall(job, 'raised_exception'), mcall(job, 'is_critical'),
+                               T.mk(('attr', job, 'critical')), T.mk(('attr', elem, '_exception')))
+                if any(T.contains(a, elem) and (a in interesting or (a[0] == 'cmp' and (a[2] in interesting
+                                                                                       or a[3] in interesting)))
                        for alt in k[3] for a, _ in alt):
                     found = (k, elem, job)
         m += 1
@@ -455,7 +470,7 @@ def detection_exact(ctx, rep, rule):
         k, elem, job = found
         raised = [mcall(job, 'raised_exception'), T.mk(('attr', elem, '_exception'))]
         crit = [mcall(job, 'is_critical'), T.mk(('attr', job, 'critical'))]
-        ok = bool(k[3]) and all(any((a, False) in alt for a in raised) or any((a, False) in alt for a in crit)
+        ok = bool(k[3]) and all(says(alt, raised, False) or any((a, False) in alt for a in crit)
                                 for alt in k[3])
         rep.check(ok, rule, "%s continues only without critical failure" % e.where, fn,
                   "run continues when: %s" % [[(T.show(a, 3), b) for a, b in alt] for alt in k[3]],
